@@ -26,7 +26,44 @@ def load_contracts():
         path = os.path.join(HERE, m.replace(".", "/") + ".py")
         if os.path.exists(path):
             importlib.import_module(m)
+    close_over_callees(REGISTRY)
     return REGISTRY
+
+
+# properties of helper functions that callers only use through a callee contract although the helper has several names
+CALLEE_ALIASES = {"Vector.na_dtype": ["Vector.na_value"], "DataFrame.__init__": ["DataFrame.__init__", "DataFrameColumn.__new__"]}
+_closed = set()
+
+
+def close_over_callees(reg):
+    """Verification is modular: a caller verified against a callee CONTRACT does not notice a change inside the callee.  So every
+    contract that proves a function used as a callee contract elsewhere is also checked under the properties of those callers
+    (its `also` list is extended) - transitively."""
+    if id(reg) in _closed:
+        return
+    _closed.add(id(reg))
+    by_qual = {}
+    for c in reg:
+        by_qual.setdefault(c.qualname, []).append(c)
+        by_qual.setdefault(c.qualname.split(".")[-1], []).append(c)
+    changed = True
+    rounds = 0
+    while changed and rounds < 5:
+        changed = False
+        rounds += 1
+        for c in reg:
+            props = {c.prop} | set(getattr(c, "also", ()) or ())
+            for q in list(getattr(c, "callees", None) or {}):
+                names = [q] + CALLEE_ALIASES.get(q, [])
+                for nm in names:
+                    for d in by_qual.get(nm, []):
+                        if d is c or d.file != c.file and "." not in nm:
+                            continue
+                        have = {d.prop} | set(getattr(d, "also", ()) or ())
+                        new = props - have
+                        if new:
+                            d.also = tuple(sorted(set(getattr(d, "also", ()) or ()) | new))
+                            changed = True
 
 
 def _verify_one(idx_repo_timeout):
